@@ -192,6 +192,7 @@ class VerletModel(common.Suite):
             s["steps"] = rng.choice([0, 1, 1, 2, 3, 5, 10, 20, 40])
             s["apply"] = rng.random() < 0.6
             s["remembered"] = rng.choice(["none", "here", "elsewhere", "elsewhere"])
+            s["reused"] = rng.random() < 0.35
             yield s
 
     def real(self, case):
@@ -201,6 +202,14 @@ class VerletModel(common.Suite):
         ctx = q["Ctx"](atoms, np.random.default_rng(0))
         remember_results(ctx, atoms, case.get("remembered", "none"))
         integ = make_verlet(q, case["dt_fs"], case["steps"], case["apply"])
+        if case.get("reused"):
+            # the integrator object has already served: the same number of atoms with OTHER masses (the same move used on a
+            # second system, `set_masses` between two trials); what it integrates now are the atoms it is given now
+            warm = H.make_atoms(case)
+            warm.set_masses(np.asarray(warm.get_masses()) * 3.7)
+            attach_calc(warm, case["ff"])
+            integ.integrate(q["Ctx"](warm, np.random.default_rng(1)))
+            atoms.calc.ncalc = 0
         integ.integrate(ctx)
         return {"dt": integ.dt, "q": atoms.get_positions().tolist(), "p": atoms.get_momenta().tolist(),
                 "ncalc": atoms.calc.ncalc}
